@@ -11,7 +11,7 @@ import os
 import re
 
 from mc.core import Unit, watchdog, mkwork, rmwork
-from mc.sched import Sched, HorizonExceeded
+from mc.sched import Sched, PlainSched, HorizonExceeded
 
 ID = "C09"
 LEVEL = "model_checking"
@@ -139,6 +139,98 @@ def run_case(n, dbits, never_mask, place_mask):
     return got == {"r%d" % i: "t%d" % i for i in range(n)}, obs
 
 
+# ---- second family: a real postponing provider (ExtRelativeName navigates over references that may still be unresolved)
+REAL_GRAMMAR = """
+Model: stmts*=Stmt;
+Stmt: Class | Instance | Call;
+Class: 'class' name=ID ('extends' extends+=[Class][','])? '{' methods*=Method '}';
+Method: 'm' name=ID;
+Instance: 'inst' name=ID ':' type=[Class];
+Call: 'call' instance=[Instance] '.' method=[Method];
+"""
+REAL_STMTS = ["class A extends B , C { m h }", "class B { m f }", "class C { m f m g }", "inst i : A"]
+REAL_EXPECT = {"h": "A", "f": "B", "g": "C", "zz": None}  # own methods, then the bases in the order written
+REAL_REFS = [("Class", "extends", "B"), ("Class", "extends", "C"), ("Instance", "type", "A"), ("Call", "instance", "i")]
+
+
+def real_deps():
+    """dependency structures between the 4 scheduled references: none, every single edge, every chain (total order)"""
+    out = [()]
+    out += [((i, j),) for i in range(4) for j in range(4) if i != j]
+    out += [tuple((p[k + 1], p[k]) for k in range(3)) for p in itertools.permutations(range(4))]
+    return out
+
+
+def run_real(order, method, edges):
+    """order: permutation of the 5 statements (index 4 = the call); edges: (i, j) = reference i of REAL_REFS answers Postponed until j is resolved"""
+    from textx import metamodel_from_str
+    from textx.exceptions import TextXSemanticError
+    from textx.scoping.providers import PlainName, ExtRelativeName
+
+    if "real" not in _S:
+        _S["real"] = metamodel_from_str(REAL_GRAMMAR)
+    mm = _S["real"]
+    seen = {}
+
+    def resolved(j):
+        o = seen.get(j)
+        if o is None:
+            return False
+        if j < 2:
+            return any(getattr(x, "name", None) == REAL_REFS[j][2] for x in o.extends)
+        return getattr(o, REAL_REFS[j][1]) is not None
+
+    def decide(obj, attr, obj_ref):
+        key = (type(obj).__name__, attr.name, obj_ref.obj_name)
+        if key not in REAL_REFS:
+            return False
+        i = REAL_REFS.index(key)
+        seen[i] = obj
+        return any(not resolved(j) for (a, j) in edges if a == i)
+    sched = PlainSched(PlainName(), decide, horizon=200)
+    mm.register_scope_providers({"*.*": sched, "Call.method": ExtRelativeName("instance.type", "methods", "extends")})
+    stmts = REAL_STMTS + ["call i . %s" % method]
+    text = "\n".join(stmts[i] for i in order)
+    names = ["A.extends[B]", "A.extends[C]", "i.type", "call.instance"]
+    obs = {"model": text, "waits_for": ["%s -> %s" % (names[a], names[b]) for a, b in edges], "expected_class_of_method": REAL_EXPECT[method]}
+    try:
+        m = mm.model_from_str(text)
+    except HorizonExceeded:
+        obs["outcome"] = "provider-call horizon exceeded (non-termination)"
+        return False, obs
+    except TextXSemanticError as e:
+        obs["outcome"] = "error"
+        obs["message"] = e.message[:120]
+        return REAL_EXPECT[method] is None and e.message.startswith("Unknown object"), obs
+    except Exception as e:
+        obs["outcome"] = "other error %s: %s" % (type(e).__name__, e)
+        return False, obs
+    obs["outcome"] = "success"
+    call = next(x for x in m.stmts if type(x).__name__ == "Call")
+    got = call.method.parent.name if call.method is not None else None
+    obs["class_of_method"] = got
+    a = next(x for x in m.stmts if getattr(x, "name", None) == "A")
+    obs["extends"] = [c.name for c in a.extends]
+    return got == REAL_EXPECT[method] and obs["extends"] == ["B", "C"] and call.instance.type is a, obs
+
+
+def work_real(arg):
+    cases = arg
+    u = Unit()
+    for order, method, edges in cases:
+        cid = ["real-provider", list(order), method, [list(e) for e in edges]]
+        with watchdog(10):
+            ok, obs = run_real(order, method, edges)
+        u.case(cid, nontrivial=bool(edges) or list(order) != sorted(order), sample=obs if len(edges) > 1 else None)
+        u.count("real-provider outcome:" + obs["outcome"].split(" ")[0])
+        u.transitions += 1
+        if not ok:
+            u.fail(cid, {"real": True, "order": list(order), "method": method, "edges": [list(e) for e in edges]}, sig="real-provider %s %s" % (method, obs["outcome"][:20]),
+                   what="%r waits_for=%s -> %s %s (expected the method of class %s)" % (
+                       obs["model"], obs["waits_for"], obs["outcome"], obs.get("message", obs.get("class_of_method")), obs["expected_class_of_method"]))
+    return u
+
+
 def work(arg):
     n, dlist, full = arg
     u = Unit()
@@ -181,11 +273,15 @@ def run(ctx):
         B = 4 if n < 4 else 16
         units += [(n, ds[i:i + B], full) for i in range(0, len(ds), B)]
     ctx.pmap(work, units)
+    real = [(order, meth, edges) for order in itertools.permutations(range(5)) for meth in REAL_EXPECT for edges in real_deps()]
+    ctx.pmap(work_real, [real[i:i + 200] for i in range(0, len(real), 200)])
     ctx.states = ctx.evaluations
     return {
         "rule": "case = (n, dependency digraph, never-set, set of references placed in the imported file); all labelled digraphs without "
                 "self loops (a self loop is the never-set); non-trivial = at least one dependency edge or never-resolving reference. "
-                "states = resolver runs, transitions = runs (each run is one complete schedule of provider answers)",
+                "states = resolver runs, transitions = runs (each run is one complete schedule of provider answers). Second family (real postponing "
+                "provider ExtRelativeName over an inheritance model): every order of the 5 statements x method looked up {own, first base, second base, "
+                "unknown} x dependency structures between the 4 references it navigates over (none, every single edge, every chain)",
         "exhaustive": True,
         "plan": [{"n": n, "placements": "all 2^n" if full else "4 representative (none, first, all, last)"} for n, full in plan],
     }, ["a reference counts as resolved when its attribute on the real object is no longer None",
@@ -193,4 +289,6 @@ def run(ctx):
 
 
 def replay(p):
+    if p.get("real"):
+        return run_real(tuple(p["order"]), p["method"], tuple(tuple(e) for e in p["edges"]))
     return run_case(p["n"], p["dbits"], p["never_mask"], p["place_mask"])
